@@ -29,7 +29,7 @@ CONTRACTS = {
     ensures=[('width', 'len(result) == required_length'),
              ('justified', 'result == ascii_bytes(ljust(value, required_length) if justify_left else rjust(value, required_length))')]),
  'StorageUnitLabel.represent_as_bytes': dict(
-    props=['C01', 'C12'],
+    props=['C01', 'C12', 'C14'],
     params={}, returns={'cls': 'LogicalRecordBytes', 'fields': LRB_FIELDS},
     raises={'ValueError': SUL_TOO_LONG, 'UnicodeEncodeError': f'not ({SUL_TOO_LONG}) and not all_ascii(self.set_identifier)'},
     ensures=[('len80', 'len(result._bts) == 80'), ('size', 'result._size == 80'),
